@@ -21,12 +21,12 @@ a list of lines that is empty is written `E`; `N` stands for Python's `None`.
   → `range=<a,b,…> spec=<a,b,…> D=<stmtRangeOverrun | ->`
 
 `X|<lines>|<first>|<stmtEnd>|<adds>|<sharesLine><soleInBlock><isElif><pctRisky><decorated><hasWalrus><pctTail>`   (seven 0/1 digits)
-  → `D=<classes | ->`   (stmtRangeOverrun, sharedLine, emptyBlock, elifHeader, fstringConversion, decoratedStmt, walrusInRemoved, fstringTail)
+  → `D=<classes | ->`   (stmtRangeOverrun, sharedLine, emptyBlock, elifHeader, fstringConversion, decoratedStmt)
 
 `G|<targets>|<valueBinds>|<u>`   the removal guard of `_check_function_unused_vars` (regenerated `Gen.removalGuard`)
   targets: `K` then K targets, target: `n NAME` | `t K` targets | `l K` targets | `s` target | `o KIND`;
   valueBinds: comma-separated names or `-`
-  → `guard=<0|1> sole=<0|1> D=<walrusInRemoved | ->`   (sole = `soleBinding`)
+  → `guard=<0|1> sole=<0|1> old=<0|1>`   (sole = `soleBinding`, old = the guard before 21e29d0)
 
 `T|<hook>|<tree>[|<tree>[|<tree>]]`   the real `NodeTransformer` on a tree; hook: `-` (plain copy), `r <id>` (replace the
   node by the second tree), `d <id>` (the visit of the node returns None), `s <id>` (… returns the list of the 2nd and 3rd tree)
@@ -272,7 +272,7 @@ def handleGuard (targets valueBinds u : String) : String :=
         let vb := if valueBinds == "-" then [] else valueBinds.splitOn ","
         let st : AssignStmt := ⟨ts, vb⟩
         let b (x : Bool) := if x then "1" else "0"
-        s!"guard={b (Gen.removalGuard st u)} sole={b (soleBinding st u)} D={if bindsInValue st then "walrusInRemoved" else "-"}"
+        s!"guard={b (Gen.removalGuard st u)} sole={b (soleBinding st u)} old={b (oldRemovalGuard st u)}"
       | _ => "bad-op"
     | none => "bad-op"
   | _ => "bad-op"
@@ -322,8 +322,7 @@ def handle (line : String) : String :=
                             decorated := g == '1', hasWalrus := w == '1', pctTail := pt == '1' }
       let d := classes [(D16_stmtRangeOverrun ls first stmtEnd, "stmtRangeOverrun"), (D16_sharedLine fc, "sharedLine"),
                         (D16_emptyBlock fc, "emptyBlock"), (D16_elifHeader fc, "elifHeader"),
-                        (D16_fstringConversion fc, "fstringConversion"), (D16_decoratedStmt fc, "decoratedStmt"),
-                        (D16_walrusInRemoved fc, "walrusInRemoved"), (D16_fstringTail fc, "fstringTail")]
+                        (D16_fstringConversion fc, "fstringConversion"), (D16_decoratedStmt fc, "decoratedStmt")]
       s!"D={d}"
     | _, _, _, _, _ => "bad-op"
   | "T" :: hook :: trees => handleTree hook trees
